@@ -53,3 +53,91 @@ Lemma gen_grow v :
   let upper := map (c1f_grow_hi n) ibad in
   set_many upper (map (fun _ => 0) upper) (set_many lower (map (fun _ => 0) lower) v).
 Proof. reflexivity. Qed.
+
+(* ================================================================== round 5: more of the stage control *)
+From Coq Require Import Lqa.
+From PV Require Import BSpline.Fit BSpline.Iter C11.ProofsIvar.
+
+(* the no-good-pixel branch: `if ngood == 0` returns the zero arrays *)
+Lemma gen_no_good c fits : c1f_no_good (length (good_index c)) = true ->
+  combine1fiber_model c fits = (map (fun _ => 0) (c_newloglam c), map (fun _ => 0) (c_newloglam c)).
+Proof.
+  unfold c1f_no_good. intro H. apply Nat.eqb_eq in H. apply no_good_pixel_all_zero.
+  destruct (good_index c); [reflexivity | discriminate].
+Qed.
+
+(* `np.sum(np.absolute(sset.coeff)) == 0`  is  "every coefficient is zero" *)
+Lemma sumabs_nonneg c : 0 <= fold_right (fun a acc => Qabs a + acc) 0 c.
+Proof.
+  induction c as [|a c IH]; cbn [fold_right]; [apply Qle_refl|].
+  pose proof (Qabs_nonneg a). lra.
+Qed.
+Lemma gen_coeff_dead c : c1f_coeff_dead c = all_zero_coeff c.
+Proof.
+  unfold c1f_coeff_dead, all_zero_coeff. induction c as [|a c IH]; [reflexivity|].
+  cbn [fold_right forallb]. rewrite <- IH.
+  pose proof (sumabs_nonneg c) as Hs. revert Hs. generalize (fold_right (fun a acc => Qabs a + acc) 0 c). intros S Hs.
+  apply Bool.eq_iff_eq_true. rewrite andb_true_iff, !Qeq_bool_iff. split.
+  - revert Hs. apply (Qabs_case a); intros; split; lra.
+  - intros [Ha HS]. rewrite HS. revert Ha. apply (Qabs_case a); intros; lra.
+Qed.
+Lemma gen_usable ss f : usable ss f =
+  if (length ss <=? c1f_min_group)%nat then None
+  else match f with Some g => if c1f_coeff_dead (g_coeff g) then None else Some g | None => None end.
+Proof. unfold usable, c1f_min_group. destruct f as [g|]; [rewrite gen_coeff_dead|]; reflexivity. Qed.
+
+(* the per-exposure range of the variance interpolation (no EPS there) *)
+Lemma gen_inbetween inloglam wts comb these newloglam newmask :
+  ivar_of_exposure inloglam wts comb these newloglam newmask =
+  let xs := map (nthQ inloglam) these in
+  let pv := map (fun i => (nthQ inloglam i, nthQ wts i * b2q (nthB comb i))) these in
+  let pm := map (fun i => (nthQ inloglam i, b2q (nthB comb i))) these in
+  map (fun t => let '(p, m) := t in
+         if c1f_inbetween (lminQ xs) (lmaxQ xs) p then
+           (if c1f_smask_ok (interp pm p) then interp pv p else 0) * b2q m
+         else 0) (combine newloglam newmask).
+Proof. reflexivity. Qed.
+
+(* running median of the weights (2-D input): the width of the source *)
+Lemma gen_median nspec specnum ivar :
+  smooth_weights nspec specnum ivar =
+  fold_left (fun iv j =>
+      let idx := filter (fun i => (nth i specnum O =? j)%nat && Qltb 0 (nthQ ivar i)) (seq 0 (length ivar)) in
+      set_many idx (median_filter c1f_median_width (map (nthQ ivar) idx)) iv)
+    (seq 0 nspec) ivar.
+Proof. reflexivity. Qed.
+
+(* the chain model calls the fit with the keywords of the source and the defaults of iterfit() *)
+Lemma gen_chain_fit sv bkspace c ss :
+  chain_fit sv bkspace c ss =
+  let ys := map (nthQ (c_flux c)) ss in
+  let ws := match c_ivar c with
+            | Some iv => map (nthQ (weights c)) ss
+            | None => let w := default_invvar ys in map (fun _ => w) ss end in
+  let ds := map (fun t : nat * Q => mkDatum (nthQ (c_inloglam c) (fst t)) (nthQ (c_flux c) (fst t)) (snd t)) (combine ss ws) in
+  let bk := knots_of_option (OBkspace bkspace) (map dx ds) (c_k c) 1 in
+  chain_loop sv (S c1f_iterfit_maxiter) c1f_requiren (c_k c) c1f_iterfit_lower c1f_iterfit_upper
+             bk (map (fun _ => true) bk) ds (initial_mask ds).
+Proof. reflexivity. Qed.
+
+(* aesthetics('damp'): damping length, damp1 = min(mingood, l), damp2 = min(maxgood, l), the two conditions *)
+Lemma gen_damp erfh flux iv :
+  aesthetics_damp erfh flux iv =
+  let bad := map (fun v => Qeq_bool v 0) iv in
+  if forallb (fun b : bool => b) bad then flux
+  else if existsb (fun b => b) bad then
+    let good := filter (fun i => negb (nthB bad i)) (seq 0 (length iv)) in
+    let mingood := hd O good in
+    let maxgood := last good O in
+    let n := length flux in
+    let t1 := fun i : nat => if c1f_taper1_on mingood
+                             then erfh ((qnat i - qnat mingood) / qnat (Nat.min mingood c1f_damp_len)) else 1 in
+    let t2 := fun i : nat => if c1f_taper2_on maxgood n
+                             then erfh ((qnat maxgood - qnat i) / qnat (Nat.min maxgood c1f_damp_len)) else 1 in
+    map (fun t : nat * Q => snd t * t1 (fst t) * t2 (fst t)) (combine (seq 0 n) (maskinterp_idx flux bad))
+  else flux.
+Proof. reflexivity. Qed.
+
+(* preprocess_spectra hands rowloglam - logshift[iobj] to combine1fiber *)
+Lemma gen_pp_shift s l : shift_grid s l = map (fun L => pp_shift L s) l.
+Proof. reflexivity. Qed.
